@@ -150,18 +150,40 @@ def hostile_payloads() -> List[tuple]:
 
     viol = []
     nodes_list = [[{"processor": "FloatDataSink"}], [{"processor": "FloatCollectValueProbe", "context_key": "a"}],
-                  [{"processor": "FloatMultiplyOperation", "parameters": {"factor": 2.0}}]]
+                  [{"processor": "FloatMultiplyOperation", "parameters": {"factor": 2.0}}],
+                  [{"processor": 'template:"{mixed}-{tup}":label'}]]       # reads the awkward values as parameters
     for nodes in nodes_list:
         for detail in ["hash", "repr", "context", "all"]:
             def payload():
-                return verif_ext.VWeirdFloat(3.0), {"g": (i for i in range(3)), "e": verif_ext.VBadEq(), "k": 1.0}
+                return verif_ext.VWeirdFloat(3.0), {"g": (i for i in range(3)), "e": verif_ext.VBadEq(), "k": 1.0,
+                                                    "mixed": {1: "a", "b": 2}, "tup": {(1, 2): "t"}}
+            # plain Pipeline objects here: the recording orchestrator deep-copies contexts, which these values refuse
+            def plain_run(d, c, drv=None):
+                import copy as _copy
+                from semantiva.context_processors import ContextType
+                from semantiva.pipeline import Payload, Pipeline
+                from ..gamma import a_data
+                o = {"raised": None, "final": None}
+                try:
+                    res = Pipeline(_copy.deepcopy(nodes), trace=drv).process(Payload(d, ContextType(c)))
+                    o["final"] = (a_data(res.data), {k: (v if isinstance(v, (int, float, str)) else type(v).__name__) for k, v in res.context.to_dict().items()})
+                except Exception as exc:
+                    o["raised"] = f"{type(exc).__name__}: {str(exc)[:160]}"
+                return o
+            import shutil as _sh
+            import tempfile as _tf
+            from ..traced import make_driver
             d1, c1 = payload()
-            un = run_nodes(nodes, d1, c1)
+            un = plain_run(d1, c1)
             d2, c2 = payload()
-            tr = run_traced(nodes, d2, c2, detail=detail)
-            ok = (un["raised"] is None) == (tr["raised"] is None)
+            tdir = _tf.mkdtemp(prefix="vhostile-")
+            try:
+                tr = plain_run(d2, c2, make_driver(tdir + "/t.ser.jsonl", detail))
+            finally:
+                _sh.rmtree(tdir, ignore_errors=True)
+            ok = un["raised"] == tr["raised"]
             if ok and un["raised"] is None:
-                ok = un["final"][0] == tr["final"][0] and set(un["final"][1]) == set(tr["final"][1])
+                ok = un["final"] == tr["final"]
             gen_left = list(c2["g"])
             if not ok or gen_left != [0, 1, 2]:
                 viol.append((f"observational:hostile-payload:{detail}",
